@@ -34,6 +34,10 @@ var c07Sets = [][]c07Route{
 	{{"GET", "/", nil}, {"GET", "/a", nil}, {"GET", "/{x}", nil}, {"GET", "/a/{m: **}", nil}, {"GET", "/a/b/?c", nil}, {"GET", "/{r: /[a.]+/}/z", nil}},
 	{{"GET", "/a", nil}, {"POST", "/a", nil}, {"*", "/{x}", nil}, {"HEAD", "/a/{m: **}/z", nil}},
 	{{"GET", "/a.{x}", nil}, {"GET", "/{x}.{y}", nil}, {"GET", "/a/{x}-{y}/?z", nil}},
+	// a larger mixed table (many siblings of every kind under two prefixes)
+	{{"GET", "/", nil}, {"GET", "/a", nil}, {"GET", "/a/", nil}, {"GET", "/a/b", nil}, {"GET", "/a/{x}", nil}, {"GET", "/a/{r: /[a2]+/}/z", nil}, {"GET", "/a/{m: **, capture: 3}/z", nil},
+		{"GET", "/a/c/?d", nil}, {"GET", "/z/{p}/{q}", nil}, {"GET", "/z/{p}/{q}/{r: /z+/}", nil}, {"GET", "/z/{m: **}", nil}, {"GET", "/{x}/z", nil}, {"GET", "/{s: /[.?]+/}", nil},
+		{"POST", "/a/{x}", nil}, {"*", "/z/?a", nil}, {"HEAD", "/{m: **, capture: 2}", nil}, {"GET", "/{p}.{q: /[az]+/}/{m: **}", nil}},
 }
 
 var c07Methods = []string{"GET", "POST", "HEAD", "BREW", "get", ""}
